@@ -31,7 +31,7 @@
        [close.afterCloseAll] hooks.OnStopped ...; return                     KReturn
 
    The pre-fix code (no check of `done` after Clients.Add; a connection accepted after end = 1 left
-   open) is the instance [exec_gen false], kept for Findings/FixedC36.v.
+   open) is the instance [exec_gen PreFix], kept for Findings/FixedC36.v.
 
    Clients are the environment: Dial i (connect), Send i (the CONNECT packet is complete on the
    wire) and Leave i (close the socket, at any time after Dial).  All control state lives in the shared state (phases), every instruction is guarded by
@@ -61,7 +61,18 @@ Record conn : Type := mkConn {
   c_connack : bool;    (* success CONNACK written *)
   c_disc : bool;       (* DISCONNECT 0x8B written *)
   c_insnap : bool;     (* in the closer's snapshot of Clients *)
-  c_sent : bool }.     (* the client has sent its CONNECT packet completely *)
+  c_sent : bool;       (* the client has sent its CONNECT packet completely *)
+  (* oracle, fixed per connection: the outcome of writing the shutdown DISCONNECT to it *)
+  c_wfail : bool;      (* the write fails (packet larger than the client's Maximum Packet Size, I/O error) *)
+  c_wexc : bool }.     (* ... for a reason outside the broker's control (I/O error): no DISCONNECT is owed *)
+
+(* what is given about a connection: protocol version and the write oracle *)
+Record cspec : Type := mkCS { cs_ver : N; cs_wfail : bool; cs_wexc : bool }.
+
+(* the current code, the pre-fix code (Findings/FixedC36.v), and a variant used as a refutation
+   witness: DisconnectClient returning early, without cl.Stop, when the write fails *)
+Inductive variant : Type := Current | PreFix | EarlyReturn.
+Definition is_fixed (v : variant) : bool := match v with PreFix => false | _ => true end.
 
 Inductive kphase : Type := KIdle | KEnd | KSnap | KDisc | KLClosed | KWaiting | KReturned.
 Inductive aphase : Type := AAtChk | AAtAccept | AAtSpawn (i : nat) | AHalted.
@@ -99,15 +110,15 @@ Definition phase_eqb (p q : phase) : bool :=
   end.
 
 Definition set_phase (p : phase) (c : conn) : conn :=
-  mkConn (c_ver c) p (c_closed c) (c_left c) (c_connack c) (c_disc c) (c_insnap c) (c_sent c).
+  mkConn (c_ver c) p (c_closed c) (c_left c) (c_connack c) (c_disc c) (c_insnap c) (c_sent c) (c_wfail c) (c_wexc c).
 Definition set_closed (c : conn) : conn :=
-  mkConn (c_ver c) (c_phase c) true (c_left c) (c_connack c) (c_disc c) (c_insnap c) (c_sent c).
+  mkConn (c_ver c) (c_phase c) true (c_left c) (c_connack c) (c_disc c) (c_insnap c) (c_sent c) (c_wfail c) (c_wexc c).
 Definition set_left (c : conn) : conn :=
-  mkConn (c_ver c) (c_phase c) (c_closed c) true (c_connack c) (c_disc c) (c_insnap c) (c_sent c).
+  mkConn (c_ver c) (c_phase c) (c_closed c) true (c_connack c) (c_disc c) (c_insnap c) (c_sent c) (c_wfail c) (c_wexc c).
 Definition set_sent (c : conn) : conn :=
-  mkConn (c_ver c) (c_phase c) (c_closed c) (c_left c) (c_connack c) (c_disc c) (c_insnap c) true.
+  mkConn (c_ver c) (c_phase c) (c_closed c) (c_left c) (c_connack c) (c_disc c) (c_insnap c) true (c_wfail c) (c_wexc c).
 Definition set_connack (c : conn) : conn :=
-  mkConn (c_ver c) (c_phase c) (c_closed c) (c_left c) true (c_disc c) (c_insnap c) (c_sent c).
+  mkConn (c_ver c) (c_phase c) (c_closed c) (c_left c) true (c_disc c) (c_insnap c) (c_sent c) (c_wfail c) (c_wexc c).
 
 (* handler holds a ClientsWg unit *)
 Definition counted (c : conn) : bool :=
@@ -150,15 +161,21 @@ Definition wg_done (s : sstate) : sstate :=
 Definition wg_add (s : sstate) : sstate :=
   mkS (s_conns s) (s_k s) (s_a s) (s_pending s) (s_wg s + 1) (s_passed s) (g_unstarted s).
 
-(* DisconnectClient(cl, ErrServerShuttingDown): write DISCONNECT, cl.Stop closes the connection;
-   on an already stopped client nothing is written *)
-Definition disconnect_client (c : conn) : conn :=
+(* DisconnectClient(cl, ErrServerShuttingDown): try to write the DISCONNECT (the oracle says whether
+   the write succeeds), then ALWAYS cl.Stop, which closes the connection; on an already stopped
+   client nothing is written.  (EarlyReturn: no cl.Stop when the write fails.) *)
+Definition disconnect_client (v : variant) (c : conn) : conn :=
   if c_closed c then c
-  else mkConn (c_ver c) (c_phase c) true (c_left c) (c_connack c) true (c_insnap c) (c_sent c).
-Definition disconnect (c : conn) : conn := if c_insnap c then disconnect_client c else c.
+  else if c_wfail c then
+    match v with
+    | EarlyReturn => c
+    | _ => mkConn (c_ver c) (c_phase c) true (c_left c) (c_connack c) (c_disc c) (c_insnap c) (c_sent c) (c_wfail c) (c_wexc c)
+    end
+  else mkConn (c_ver c) (c_phase c) true (c_left c) (c_connack c) true (c_insnap c) (c_sent c) (c_wfail c) (c_wexc c).
+Definition disconnect (v : variant) (c : conn) : conn := if c_insnap c then disconnect_client v c else c.
 
 Definition take_snapshot (c : conn) : conn :=
-  mkConn (c_ver c) (c_phase c) (c_closed c) (c_left c) (c_connack c) (c_disc c) (in_clients c) (c_sent c).
+  mkConn (c_ver c) (c_phase c) (c_closed c) (c_left c) (c_connack c) (c_disc c) (in_clients c) (c_sent c) (c_wfail c) (c_wexc c).
 
 Definition reset_pending (c : conn) : conn :=
   match c_phase c with PPending => set_closed (set_phase PReset c) | _ => c end.
@@ -169,7 +186,8 @@ Definition guard (i : nat) (p : phase) (s : sstate) (k : conn -> outcome sstate)
   | None => Blocked
   end.
 
-Definition exec_gen (fixed : bool) (_ : tid) (ins : instr) (s : sstate) : outcome sstate :=
+Definition exec_gen (v : variant) (_ : tid) (ins : instr) (s : sstate) : outcome sstate :=
+  let fixed := is_fixed v in
   match ins with
   | Dial i =>
       guard i PNone s (fun _ =>
@@ -244,7 +262,7 @@ Definition exec_gen (fixed : bool) (_ : tid) (ins : instr) (s : sstate) : outcom
       | _ => Blocked
       end
   | KDisconnect =>
-      match s_k s with KSnap => Continue (with_k KDisc (with_conns (map disconnect (s_conns s)) s)) | _ => Blocked end
+      match s_k s with KSnap => Continue (with_k KDisc (with_conns (map (disconnect v) (s_conns s)) s)) | _ => Blocked end
   | KCloseListener =>
       match s_k s with
       | KDisc => Continue (with_k KLClosed (with_pending [] (with_conns (map reset_pending (s_conns s)) s)))
@@ -264,7 +282,7 @@ Definition exec_gen (fixed : bool) (_ : tid) (ins : instr) (s : sstate) : outcom
   end.
 
 (* the current code *)
-Definition exec : tid -> instr -> sstate -> outcome sstate := exec_gen true.
+Definition exec : tid -> instr -> sstate -> outcome sstate := exec_gen Current.
 
 (* ---------- threads ----------
    tid 0 = closer, 1 = accept loop, 2+i = client i, 2+n+i = handler of connection i,
@@ -276,12 +294,13 @@ Definition client_prog (i : nat) : list instr := [Dial i; Send i].
 Definition leaver_prog (i : nat) : list instr := [Leave i].
 Definition handler_prog (i : nat) : list instr := [HStart i; HRead i; HClientsAdd i; HConnack i; HTeardown i].
 
-Definition conn0 (ver : N) : conn := mkConn ver PNone false false false false false false.
+Definition conn0 (sp : cspec) : conn :=
+  mkConn (cs_ver sp) PNone false false false false false false (cs_wfail sp) (cs_wexc sp).
 
-Definition init_state (vers : list N) : sstate :=
+Definition init_state (vers : list cspec) : sstate :=
   mkS (map conn0 vers) KIdle AAtChk [] 0 false false.
 
-Definition shutdown_threads (vers : list N) : cfg sstate instr :=
+Definition shutdown_threads (vers : list cspec) : cfg sstate instr :=
   let n := length vers in
   mkCfg (init_state vers)
         (closer_prog :: accept_prog (S n) :: map client_prog (seq 0 n) ++ map handler_prog (seq 0 n) ++ map leaver_prog (seq 0 n)).
@@ -314,12 +333,14 @@ Definition quiescent (s : sstate) : bool :=
   forallb handler_quiet (s_conns s).
 
 (* a connection that reached the broker is closed (or the client went away by itself), and an
-   MQTT 5 client that had been told it was connected was sent DISCONNECT 0x8B *)
+   MQTT 5 client that had been told it was connected was sent DISCONNECT 0x8B — unless writing to
+   it failed for a reason outside the broker's control *)
+Definition owed_disconnect (c : conn) : bool :=
+  (c_ver c =? 5)%N && c_connack c && negb (c_left c) && negb (c_wfail c && c_wexc c).
 Definition conn_closed_ok (c : conn) : bool :=
   match c_phase c with
   | PNone => true
-  | _ => (c_closed c || c_left c) &&
-         (if (c_ver c =? 5)%N && c_connack c && negb (c_left c) then c_disc c else true)
+  | _ => (c_closed c || c_left c) && (if owed_disconnect c then c_disc c else true)
   end.
 
 (* "every connected client is disconnected and its connection closed, every listener stops accepting,
@@ -328,22 +349,32 @@ Definition shutdown_complete (s : sstate) : bool :=
   returned s && k_lclosed (s_k s) && forallb conn_closed_ok (s_conns s) && no_live_handler s.
 
 (* ---------- known findings: narrow, executable, on the schedule ---------- *)
-Definition final (vers : list N) (sched : list tid) : sstate := shared (run exec sched (shutdown_threads vers)).
+Definition final (vers : list cspec) (sched : list tid) : sstate := shared (run exec sched (shutdown_threads vers)).
 
 (* C36-1a: when ClientsWg.Wait returned, a handler had been spawned by the accept loop but had not
    yet run ClientsWg.Add(1) (it is called inside the handler): Close does not wait for it *)
-Definition KF_C36_unstarted_handler (vers : list N) (sched : list tid) : bool := g_unstarted (final vers sched).
+Definition KF_C36_unstarted_handler (vers : list cspec) (sched : list tid) : bool := g_unstarted (final vers sched).
 
 (* C36-3: a connection that was accepted (its handler has run ClientsWg.Add) but whose client has
    not sent its CONNECT is not in Clients: Close does not close it and blocks in ClientsWg.Wait
    until that client sends its CONNECT (it is then refused) or goes away *)
 Definition silent (c : conn) : bool :=
   phase_eqb (c_phase c) PWait && negb (c_sent c || c_closed c || c_left c).
-Definition KF_C36_silent_connection (vers : list N) (sched : list tid) : bool :=
+Definition KF_C36_silent_connection (vers : list cspec) (sched : list tid) : bool :=
   existsb silent (s_conns (final vers sched)).
+
+(* C36-4: the shutdown DISCONNECT with its reason string (27 bytes) exceeds the Maximum Packet Size
+   of an MQTT 5 client: WritePacket refuses it and the client is closed without any DISCONNECT
+   (the reason string ought to be left out instead, MQTT 5 section 3.14.2.2.3) *)
+Definition undelivered (c : conn) : bool :=
+  owed_disconnect c && c_closed c && negb (c_disc c) && c_wfail c.
+Definition KF_C36_disconnect_too_large (vers : list cspec) (sched : list tid) : bool :=
+  existsb undelivered (s_conns (final vers sched)).
 
 (* ---------- engine ----------
    case = ((ver...) (action...) final)
+     ver    = (version wfail wexc)       wfail: writing the shutdown DISCONNECT to this connection fails;
+                                          wexc: ... because of an I/O error (not the packet size)
      action = ((tid...) kobs (hobs...))   the schedule entries of one harness action, then what the
                                           harness saw: closer state and the state of every handler
        kobs: 0 not started, 1 at close.beforeSnapshot, 2 at close.afterSnapshot, 3 blocked in Wait,
@@ -430,10 +461,12 @@ Fixpoint zip_forallb {A B} (f : A -> B -> bool) (a : list A) (b : list B) : bool
 Definition obs_quiescent (k : N) (hs : list N) : bool :=
   ((k =? 0) || (k =? 3) || (k =? 5))%N && forallb (fun h => (h =? 0) || (h =? 4) || (h =? 6) || (h =? 7))%N hs.
 
-Definition obs_conn_ok (ver : N) (h : N) (o : cobs) : bool :=
+(* exc_tl: the missing DISCONNECT of a client whose Maximum Packet Size is too small is excused *)
+Definition obs_conn_ok (exc_tl : bool) (sp : cspec) (h : N) (o : cobs) : bool :=
   match o_dial o with
   | 1%N => (o_closed o || o_left o) &&
-           (if (ver =? 5)%N && o_connack o && negb (o_left o) then o_disc o else true) &&
+           (if (cs_ver sp =? 5)%N && o_connack o && negb (o_left o) && negb (cs_wfail sp && (cs_wexc sp || exc_tl))
+            then o_disc o else true) &&
            ((h =? 0) || (h =? 6))%N
   | _ => true
   end.
@@ -449,33 +482,35 @@ Fixpoint zip3_forallb {A B C} (f : A -> B -> C -> bool) (a : list A) (b : list B
   | _, _, _ => false
   end.
 
-Definition obs_complete_ok (vers : list N) (acts : list action) (fin : list cobs) : bool :=
+(* exc_si: connections whose handler still waits for a CONNECT are excused, and so is Close being
+   blocked on them (C36-3) *)
+Definition obs_complete (exc_si exc_tl : bool) (vers : list cspec) (acts : list action) (fin : list cobs) : bool :=
   match rev acts with
   | [] => true
   | last :: _ =>
       if obs_quiescent (a_kobs last) (a_hobs last) && negb (a_kobs last =? 0)%N
-      then (a_kobs last =? 5)%N && zip3_forallb obs_conn_ok vers (a_hobs last) fin
+      then ((a_kobs last =? 5)%N || (exc_si && (a_kobs last =? 3)%N && existsb (fun h => (h =? 7)%N) (a_hobs last))) &&
+           zip3_forallb (fun sp h o => (exc_si && (h =? 7)%N) || obs_conn_ok exc_tl sp h o) vers (a_hobs last) fin
       else true
   end.
 
-(* the same with the connections whose handler still waits for a CONNECT excused (C36-3) *)
-Definition obs_complete_but_silent (vers : list N) (acts : list action) (fin : list cobs) : bool :=
-  match rev acts with
-  | [] => false
-  | last :: _ =>
-      obs_quiescent (a_kobs last) (a_hobs last) && ((a_kobs last =? 3) || (a_kobs last =? 5))%N &&
-      existsb (fun h => (h =? 7)%N) (a_hobs last) &&
-      zip3_forallb (fun v h o => (h =? 7)%N || obs_conn_ok v h o) vers (a_hobs last) fin
-  end.
+Definition obs_complete_ok := obs_complete false false.
 
-Definition obs_spec_ok (vers : list N) (acts : list action) (fin : list cobs) : bool :=
+Definition obs_spec_ok (vers : list cspec) (acts : list action) (fin : list cobs) : bool :=
   obs_waits_ok acts && obs_complete_ok vers acts fin.
+
+Definition as_cspec (v : val) : option cspec :=
+  match v with
+  | VL [VN ver; a; b] =>
+      match as_bool a, as_bool b with Some a', Some b' => Some (mkCS ver a' b') | _, _ => None end
+  | _ => None
+  end.
 
 (* ENGINE shutdown Conc.Shutdown.shutdown_engine *)
 Definition shutdown_engine (v : val) : val :=
   match v with
   | VL [VL vers; VL acts; VL fin] =>
-      match map_opt as_N vers, map_opt as_action acts, map_opt as_cobs fin with
+      match map_opt as_cspec vers, map_opt as_action acts, map_opt as_cobs fin with
       | Some vs, Some acts', Some fin' =>
           let (agree, c) := replay acts' (shutdown_threads vs) in
           let s := shared c in
@@ -486,10 +521,13 @@ Definition shutdown_engine (v : val) : val :=
             let w_ok := obs_waits_ok acts' in
             let c_ok := obs_complete_ok vs acts' fin' in
             let w_explained := w_ok || g_unstarted s in
-            let c_explained := c_ok || (existsb silent (s_conns s) && obs_complete_but_silent vs acts' fin') in
+            let kf_tl := existsb undelivered (s_conns s) in
+            let c_explained := obs_complete (existsb silent (s_conns s)) kf_tl vs acts' fin' in
             if w_explained && c_explained then
               if negb w_ok then verdict 3 tg nontriv [VB (tag "KF_C36_unstarted_handler"); vbool agree']
-              else verdict 3 tg nontriv [VB (tag "KF_C36_silent_connection"); vbool agree']
+              else if negb (obs_complete false kf_tl vs acts' fin')
+              then verdict 3 tg nontriv [VB (tag "KF_C36_silent_connection"); vbool agree']
+              else verdict 3 tg nontriv [VB (tag "KF_C36_disconnect_too_large"); vbool agree']
             else verdict 1 tg nontriv [vbool agree']
           else if agree' then verdict 0 tg nontriv []
           else verdict 2 tg nontriv []
